@@ -16,7 +16,12 @@ LIMITS = {
     "tiny": (0, 0.3, 0.1),
     "huge": (5, 1e6, 5),
     "third": (1 / 3, 7.1, 2.675),
+    # decimal limits where float rounding bites: fl(v + fl(max - v)) > max and fl(v - fl(v - min)) < min
+    "dec_hi": (0, 1.7, 0.6),
+    "dec_hi2": (0, 100.2, 32.02),
+    "dec_lo": (0.1, 50, 0.39),
 }
+assert 0.6 + (1.7 - 0.6) > 1.7 and 32.02 + (100.2 - 32.02) > 100.2 and 0.39 - (0.39 - 0.1) < 0.1
 _MSG = re.compile(r'"(.+?)"\.([A-Z]\d+):')
 
 
